@@ -172,11 +172,17 @@ structure Inv (s : State) : Prop where
 
 /-- The part of the invariant about records that did not load (histories that are `tame`). -/
 structure DInv (s : State) : Prop where
-  /-- `invalidTorrentIDs` lists exactly the records that are in the bucket without having loaded -/
-  inv : s.invalid = s.deadIds
-  /-- no registered torrent and no add in flight has an invalid id -/
-  fresh : ∀ id ∈ s.invalid, id ∉ s.regIds ∧ id ∉ s.pendIds
-  nodup : s.deadIds.Nodup
+  deadNodup : s.deadIds.Nodup
+  invNodup : s.invalid.Nodup
+  /-- a record that did not load is listed as invalid -/
+  deadInv : ∀ id ∈ s.deadIds, id ∈ s.invalid
+  /-- an invalid id still has its dead record, or an add in flight has just written a new record under it
+  (and will take it off the list when it inserts the torrent) -/
+  invSrc : ∀ id ∈ s.invalid, id ∈ s.deadIds ∨ ∃ q ∈ s.pending, q.id = id ∧ q.stage = .written
+  /-- no registered torrent has an invalid id -/
+  fresh : ∀ id ∈ s.invalid, id ∉ s.regIds
+  /-- an add that has written has replaced the dead record of its id -/
+  wdead : ∀ q ∈ s.pending, q.stage = .written → q.id ∉ s.deadIds
 
 theorem Inv.dbIds_perm {s : State} (h : Inv s) :
     s.dbIds.Perm (s.regIds ++ (written s.pending).map (·.id)) := by
@@ -200,26 +206,40 @@ theorem init_inv (lo hi : Nat) : Inv (init lo hi) := by
   refine ⟨?_, ?_, ?_, ?_, ?_, ?_⟩ <;> simp [init, State.range, State.regIds, State.pendIds, written]
 
 theorem init_dinv (lo hi : Nat) : DInv (init lo hi) := by
-  refine ⟨?_, ?_, ?_⟩ <;> simp [init, State.deadIds]
+  refine ⟨?_, ?_, ?_, ?_, ?_, ?_⟩ <;> simp [init, State.deadIds]
 
-/-- An id of the database is the id of a registered torrent or of an add in flight. -/
-theorem Inv.dbId_live {s : State} (h : Inv s) {id : String} (hid : id ∈ s.dbIds) : id ∈ s.regIds ∨ id ∈ s.pendIds := by
+/-- An id of the database is the id of a registered torrent or of an add that has written. -/
+theorem Inv.dbId_src {s : State} (h : Inv s) {id : String} (hid : id ∈ s.dbIds) :
+    id ∈ s.regIds ∨ ∃ q ∈ s.pending, q.id = id ∧ q.stage = .written := by
   rcases List.mem_append.1 ((h.dbIds_perm.mem_iff).1 hid) with h1 | h1
   · exact Or.inl h1
-  · exact Or.inr (((written_sublist _).map _).subset h1)
+  · obtain ⟨q, hq, rfl⟩ := List.mem_map.1 h1
+    have := List.mem_filter.1 hq
+    exact Or.inr ⟨q, this.1, rfl, by simpa using this.2⟩
 
-theorem DInv.not_db {s : State} (h : Inv s) (hd : DInv s) {id : String} (hid : id ∈ s.invalid) : id ∉ s.dbIds := by
+theorem DInv.dead_not_db {s : State} (h : Inv s) (hd : DInv s) {id : String} (hid : id ∈ s.deadIds) : id ∉ s.dbIds := by
   intro hc
-  obtain ⟨h1, h2⟩ := hd.fresh id hid
-  exact (h.dbId_live hc).elim h1 h2
+  rcases h.dbId_src hc with h1 | ⟨q, hq, rfl, hw⟩
+  · exact hd.fresh id (hd.deadInv id hid) h1
+  · exact hd.wdead q hq hw hid
+
+/-- With no add in flight the invalid ids are exactly the ids of the records that did not load. -/
+theorem DInv.invalid_perm {s : State} (hd : DInv s) (hp : s.pending = []) : s.invalid.Perm s.deadIds := by
+  rw [List.perm_ext_iff_of_nodup hd.invNodup hd.deadNodup]
+  intro a
+  constructor
+  · intro ha
+    rcases hd.invSrc a ha with h1 | ⟨q, hq, _, _⟩
+    · exact h1
+    · rw [hp] at hq; cases hq
+  · exact hd.deadInv a
 
 /-- The torrents bucket has one sub-bucket per id. -/
 theorem bucket_nodup {s : State} (h : Inv s) (hd : DInv s) : ((s.db ++ s.dead).map (·.1)).Nodup := by
   rw [List.map_append]
-  refine List.nodup_append.2 ⟨h.dbIds_nodup, hd.nodup, ?_⟩
+  refine List.nodup_append.2 ⟨h.dbIds_nodup, hd.deadNodup, ?_⟩
   intro a ha b hb hab
   subst hab
-  have : a ∈ s.invalid := by rw [hd.inv]; exact hb
-  exact hd.not_db h this ha
+  exact hd.dead_not_db h hb ha
 
 end Rain.Registry
